@@ -300,23 +300,28 @@ func checkC09(c *Ctx) {
 		}
 		// R6: clock read under the lock
 		bad = ""
-		var lock *core.Call
-		for _, cl := range core.CallsIn(outer) {
-			if cl.Obj != nil && cl.Obj.Name() == "Lock" && cl.Obj.Pkg() != nil && cl.Obj.Pkg().Path() == "sync" {
-				if _, isDefer := cl.Instr.(*ssa.Defer); !isDefer && lock == nil {
-					lock = cl
+		la := c.lockAnalysis()
+		exclHeld := func(at ssa.Instruction) bool {
+			fl := la.locks[at.Parent()]
+			if fl == nil {
+				return false
+			}
+			for _, h := range fl.before[at] {
+				if h.excl {
+					return true
 				}
 			}
+			return false
 		}
 		nclock := 0
 		for _, cl := range core.CallsIn(f) {
 			if isClockCall(cl) {
 				nclock++
 				at := cl.Instr
-				if via != nil {
+				if via != nil && !exclHeld(at) {
 					at = via.Instr // the helper runs where the mutator calls it
 				}
-				if lock == nil || !core.Dominates(lock.Instr, at) {
+				if !exclHeld(at) {
 					bad = "the timestamp is read before the state lock is taken: another writer can apply a later-stamped change first and then be overwritten locally by this older-stamped one, while remote nodes keep the later one"
 				}
 			}
@@ -324,7 +329,7 @@ func checkC09(c *Ctx) {
 		if nclock == 0 {
 			bad = "the mutator never reads the clock"
 		}
-		ru6.Check(bad == "", key, c.where(f, f), "clock() dominated by Lock()", bad)
+		ru6.Check(bad == "", key, c.where(f, f), "clock() read with the state lock held exclusively", bad)
 	}
 	c.ruleLoopAlias("C09-R4", fns, 2)
 
